@@ -517,10 +517,11 @@ class UTPM(Ring, RawAlgorithmsMixIn):
         elif numpy.isscalar(rhs) or isinstance(rhs,numpy.ndarray):
             self.data[...] /= rhs
         else:
-            retval = self.clone()
+            self_data, rhs_data = UTPM._broadcast_arrays(self.data, rhs.data)
+            retval_data = self_data.copy()
             for d in range(D):
-                retval.data[d,:,...] = 1./ rhs.data[0,:,...] * ( self.data[d,:,...] - numpy.sum(retval.data[:d,:,...] * rhs.data[d:0:-1,:,...], axis=0))
-            self.data[...] = retval.data[...]
+                retval_data[d,:,...] = 1./ rhs_data[0,:,...] * ( self_data[d,:,...] - numpy.sum(retval_data[:d,:,...] * rhs_data[d:0:-1,:,...], axis=0))
+            self.data[...] = retval_data[...]
         return self
 
     __div__ = __truediv__
